@@ -67,6 +67,8 @@ type stats struct {
 	jsonBlocks int
 	evalSkip   bool
 	dur        time.Duration
+	// relexChecked: the token list was checked again after other inputs had been lexed
+	relexChecked int
 }
 
 type checker struct {
@@ -194,6 +196,9 @@ func (k *checker) checkDiags(diags hcl.Diagnostics, phase string) {
 func isBlank(b byte) bool { return b == ' ' || b == '\t' }
 
 var utf8BOM = []byte{0xef, 0xbb, 0xbf}
+
+// laterInput is lexed between receiving a token list and looking at it a second time.
+var laterInput = []byte("Teamserver {\n  Host = \"0.0.0.0\"\n  Port = 40056\n  Build { Compiler64 = \"/usr/bin/x86_64-w64-mingw32-gcc\" }\n}\nOperators {\n  user \"5pider\" { Password = \"p${w}\" }\n}\n# end\n")
 
 // checkTokens: tokens in source order, no overlap, Bytes == input[Range], gaps hold only
 // blanks (space, tab; a UTF-8 byte-order mark at offset 0 is the one thing besides blanks
@@ -505,6 +510,20 @@ func runEntry(entry int, src []byte) *checker {
 		}
 		k.st.errFree = !diags.HasErrors()
 		k.checkTokens(toks)
+		if len(k.findings) == 0 && len(toks) > 0 {
+			// the tokens handed out belong to the caller: they still describe this input after
+			// the package has lexed something else
+			saved := k.st
+			lib.Guard(func() { hclsyntax.LexConfig(laterInput, "later.hcl", startPos) })
+			lib.Guard(func() { hclsyntax.LexTemplate(laterInput[:37], "later.tpl", startPos) })
+			k.checkTokens(toks)
+			k.st = saved
+			for i := range k.findings {
+				k.findings[i].Sig = "token:changed-by-a-later-lex:" + k.findings[i].Sig
+				k.findings[i].What = "after another input was lexed, the tokens returned for this one no longer match it: " + k.findings[i].What
+			}
+			k.st.relexChecked++
+		}
 		k.checkDiags(diags, "lex")
 
 	case eParseConfig:
